@@ -20,7 +20,7 @@ def main():
     results = {}
 
     def worker(k):
-        env = dict(os.environ, SEED_SCRATCH=f'/tmp/mutrepo_r{k}')
+        env = dict(os.environ, SEED_SCRATCH=f'/tmp/mutrepo_{os.getpid()}_r{k}')
         while queue:
             try:
                 sid = queue.pop(0)
@@ -42,7 +42,7 @@ def main():
     nofail = [s for s, v in results.items() if any(viol and 'no-failing-input' in viol for _, viol, _ in v)]
     print(f'{len(results)} changes, {len(missed)} missed {missed}, {len(nofail)} without a failing input {nofail}')
     for k in range(j):
-        subprocess.run(f'git -C /repo worktree remove --force /tmp/mutrepo_r{k}', shell=True, stdout=subprocess.DEVNULL, stderr=subprocess.DEVNULL)
+        subprocess.run(f'git -C /repo worktree remove --force /tmp/mutrepo_{os.getpid()}_r{k}', shell=True, stdout=subprocess.DEVNULL, stderr=subprocess.DEVNULL)
     sys.exit(1 if missed else 0)
 
 
